@@ -125,6 +125,11 @@ pub async fn run() -> String {{
     let (_, calls): (u32, u32) = r.ask(GetState).await.unwrap();
     let l3 = macrocorpus::err_logs();
     let text = macrocorpus::last_err_text();
+    // an ask is an ask whatever its timeout: a zero budget may expire before the reply, but the handler's value is never
+    // handed to on_tell_result (no error log), and the handler runs like for any accepted request
+    let _ = r.ask_with_timeout({lit("true")}, std::time::Duration::ZERO).await;
+    let (_, calls_after_zero): (u32, u32) = r.ask(GetState).await.unwrap();
+    let l3z = macrocorpus::err_logs();
     r.stop().await.unwrap();
     let completed = jh.await.map(|x| x.is_completed()).unwrap_or(false);
     // a second instance: the handler of a tell is suspended when kill() is called and then returns its Err - the
@@ -137,7 +142,7 @@ pub async fn run() -> String {{
     macrocorpus::release();
     let killed = jh2.await.map(|x| x.was_killed()).unwrap_or(false);
     let l5 = macrocorpus::err_logs();
-    format!("p{i} start_ok={{start_ok}} ask_ok={{ask_ok}} ask_err={{ask_err}} logs_ask={{}} logs_tell_ok={{}} logs_tell_err={{}} calls={{calls}} completed={{completed}} parked={{parked}} killed={{killed}} logs_tell_err_kill_pending={{}} text={{:?}}", l1 - l0, l2 - l1, l3 - l2, l5 - l4, text)
+    format!("p{i} start_ok={{start_ok}} ask_ok={{ask_ok}} ask_err={{ask_err}} logs_ask={{}} logs_tell_ok={{}} logs_tell_err={{}} calls={{calls}} completed={{completed}} parked={{parked}} killed={{killed}} logs_tell_err_kill_pending={{}} logs_ask_zero_timeout={{}} calls_after_zero={{calls_after_zero}} text={{:?}}", l1 - l0, l2 - l1, l3 - l2, l5 - l4, l3z - l3, text)
 }}
 """
     return src
